@@ -44,14 +44,37 @@ Definition k_table_entry (i : Z) : list Z :=
   end.
 Definition k_table_len : list Z := [Z.of_nat (length reveng_table)].
 
-(* message ++ (model trailer of the model CRC, xor-ed word by word with tx), start with the first word, all valid:
-   trailer words, trace, and 1 iff the final match_detected is as expected (tx all zero <-> match), the
-   expectation being applied for odd polynomials only (see C16_no_false_match / _refuted) *)
-Definition k_match (a : algo) (d k : Z) (ws tx : list Z) : list Z :=
+(* Codeword runs.  Cycles: `pre` (arbitrary junk cycles before the start), then either a cycle with start alone
+   (st = 1), or start together with the first word (st = 0), or no start at all (st = 2, only used with pre = []:
+   the register is at its reset value); every word of message ++ trailer is preceded by gaps[i] idle cycles
+   (valid = 0, data = the coming word).  The trailer is the model's `trailer` of the model's CRC xor-ed word by
+   word with tx.  Answer: trailer words, outputs before the first edge and after every edge, then the verdict of
+   the property text: 1 = "match_detected after the last word iff tx is all zero" — the model states the
+   property here (always 1); the harness computes the same flag from the observed final match_detected. *)
+Fixpoint sched (first : bool) (words gaps : list Z) : list cycle :=
+  match words with
+  | [] => []
+  | x :: r => repeat (Cy false false x) (Z.to_nat (hd 0 gaps)) ++ Cy first true x :: sched false r (tl gaps)
+  end.
+
+Definition match_cycles (a : algo) (d k : Z) (ws tx : list Z) (pre : list cycle) (st : Z) (gaps : list Z) : list Z * list cycle :=
   let t := map (fun p => Z.lxor (fst p) (snd p)) (combine (trailer a d (Z.to_nat k) (compute_raw a d ws)) tx) in
-  let cs := match ws ++ t with [] => [] | x :: r => Cy true true x :: map (Cy false true) r end in
-  let tr := hw_trace a d cs in
-  let final := snd (last tr (0, false)) in
-  let expected := forallb (fun x => x =? 0) tx in
-  t ++ hw_crc a (init a) :: b2l (hw_match a (init a)) :: flat_map (fun o => [fst o; b2l (snd o)]) tr ++
-  [b2l (if Z.odd (poly a) then Bool.eqb final expected else true)].
+  (t, pre ++ (if st =? 1 then [Cy true false 0] else []) ++ sched (st =? 0) (ws ++ t) gaps).
+
+Definition k_match (a : algo) (d k : Z) (ws tx : list Z) (pre : list cycle) (st : Z) (gaps : list Z) : list Z :=
+  let '(t, cs) := match_cycles a d k ws tx pre st gaps in
+  t ++ k_hw a d cs ++ [1].
+
+(* the same run with the verdict computed from the MODEL's final match_detected (what the faithful model does;
+   differs from k_match exactly on the inputs of finding C16-even-polynomial-false-match) *)
+Definition k_match_faithful (a : algo) (d k : Z) (ws tx : list Z) (pre : list cycle) (st : Z) (gaps : list Z) : list Z :=
+  let '(t, cs) := match_cycles a d k ws tx pre st gaps in
+  let final := hw_match a (hw_run a d cs) in
+  t ++ k_hw a d cs ++ [b2l (Bool.eqb final (forallb (fun x => x =? 0) tx))].
+
+(* Processor(parameters).__init__: signal widths, the initial-value constant, the stored residue and matrices *)
+Definition k_proc (a : algo) (d : Z) : list Z :=
+  [cw a; d; 1; 1; 1; init a; cw a; residue a] ++ k_matrices a d.
+
+(* TypeError of Processor(non-Parameters) / operator.index(non-int) *)
+Definition k_typeerr : list Z := [-3].
